@@ -4,5 +4,17 @@ CLAIMS = {
         "note": "Trusted: the engine's SSA semantics, the exact-integer model of sdk.Int (no 2^255 overflow; amounts bounded to 2^100, gaps to 2^62), SMT solvers. Keeper-level and handler-level histories are covered by the chain-step checks when present.",
     },
 }
+CLAIMS["C19"] = {
+    "text": "Symbolic execution of MsgCreateDeployment.ValidateBasic and ValidateDeploymentGroups (with ValidateResourceList, validateResourceGroup/Unit/CPU/Memory/Storage, validateGroupPricing/UnitPricing) over symbolic groups/units (unbounded-integer cpu/memory/storage/price, any uint32 count, names, denoms, version lengths, nil units, MaxGroupCount+1 groups, MaxGroupUnits+1 units); obligation: accepted implies an independent oracle of every documented limit whose constants are read from the real validationConfig.",
+    "note": "Trusted: engine SSA semantics, integer model of sdk.Int, bech32 modelled as a bijection. Bounded to <=2 (thorough 3) groups x <=2 units with symbolic content. Store effects of the handler are covered by the chain-step checks.",
+}
+CLAIMS["C12"] = {
+    "text": "Symbolic execution of inventoryService.getStatus, reservationAllocateable/AdjustInventory/CountEndpoints and ResourceUnits.Add/Sub on symbolic node capacities and reservations; obligations: status queries leave reservations unchanged and are repeatable, one entry per reservation with the sum of its records; a granted reservation implies that a placement of every pending and new replica on the nodes exists (existential expanded over the bounded instance) and endpoints fit the free ports.",
+    "note": "Trusted: engine SSA semantics (exact pointer aliasing), integer model. Bounds: <=2 nodes, <=2 reservations, <=2 (thorough 3) records, replica count 1..2. The select loop of the service and the float commit-level kernel are not yet covered here.",
+}
+CLAIMS["C17"] = {
+    "text": "One inductive step of the certificate module from an arbitrary store state (0..2, thorough 3, certificates with symbolic serials/owners/states) through the real keeper, message validation and every listing/lookup path, on the engine's KV-store and codec models; obligations: registration only by the named account, uniqueness per owner+serial, revocation only valid->revoked for the named owner, nothing removed, every certificate found and listed with correct serial and state, listings never fail.",
+    "note": "Trusted: store model (ordered association list), codec model (deep copy), certificate tokens instead of X.509/PEM bytes, bech32 bijection. Serials bounded to 3 bytes (thorough 9); 2^159 is outside the bound. Pagination is outside.",
+}
 NOT_APPLICABLE = {}
 NOTES = "Work in progress: checks are added property by property; see DESIGN.md §9 for deviations from the plan."
